@@ -50,7 +50,16 @@ pub struct Monitor {
     v5: bool,
     limit: u16,
     manual: bool,
+    /// Interval within which a PINGREQ is owed and failures are due (0: no obligation). The
+    /// statement speaks of "the keep-alive interval"; an MQTT 5 CONNACK may carry a server
+    /// keep alive that differs from the configured one: a client is held to the longer of
+    /// the two, and to none when either of them is zero.
     keep_alive_ms: u64,
+    /// the shorter of the two intervals (premise of the false-alarm clause)
+    keep_alive_lo_ms: u64,
+    /// pinging is ruled out only when no non-zero interval is in play
+    pings_forbidden: bool,
+    keep_alive_cfg_ms: u64,
     conn_timeout_ms: u64,
     pub last_was_error: bool,
     pub connect_seen_unanswered: bool,
@@ -104,6 +113,8 @@ pub struct Monitor {
     healthy: bool,
     completed_rels: Vec<u16>,
     expect_unsolicited: bool,
+    /// the broker sent something the client may, but need not, report as unsolicited
+    maybe_unsolicited: bool,
     /// the broker acknowledged an id in flight with the wrong kind of acknowledgement
     wrong_kind_ack: bool,
     partial_outstanding: bool,
@@ -137,6 +148,9 @@ impl Monitor {
             limit: cfg.inflight,
             manual: cfg.manual_acks,
             keep_alive_ms: cfg.keep_alive_s * 1000,
+            keep_alive_lo_ms: cfg.keep_alive_s * 1000,
+            pings_forbidden: cfg.keep_alive_s == 0,
+            keep_alive_cfg_ms: cfg.keep_alive_s * 1000,
             conn_timeout_ms: cfg.conn_timeout_s * 1000,
             last_was_error: false,
             connect_seen_unanswered: false,
@@ -178,6 +192,7 @@ impl Monitor {
             healthy: false,
             completed_rels: vec![],
             expect_unsolicited: false,
+            maybe_unsolicited: false,
             wrong_kind_ack: false,
             partial_outstanding: false,
             stale_in: VecDeque::new(),
@@ -310,8 +325,16 @@ impl Monitor {
                 if *code == 0 {
                     self.resumed = Some(*sp);
                     if let Some(ka) = server_ka {
-                        // MQTT 5, 3.2.2.3.14: the client uses the server's value
-                        self.keep_alive_ms = *ka as u64 * 1000;
+                        // MQTT 5, 3.2.2.3.14: the client uses the server's value — the
+                        // statement does not say so, either interval is accepted
+                        let (cfg, srv) = (self.keep_alive_cfg_ms, *ka as u64 * 1000);
+                        self.keep_alive_ms = if cfg == 0 || srv == 0 { 0 } else { cfg.max(srv) };
+                        self.keep_alive_lo_ms = cfg.min(srv);
+                        self.pings_forbidden = cfg == 0 && srv == 0;
+                    } else {
+                        self.keep_alive_ms = self.keep_alive_cfg_ms;
+                        self.keep_alive_lo_ms = self.keep_alive_cfg_ms;
+                        self.pings_forbidden = self.keep_alive_cfg_ms == 0;
                     }
                     let carried = std::mem::take(&mut self.carried_q2);
                     if *sp && !self.manual {
@@ -402,9 +425,21 @@ impl Monitor {
             Pk::PubRel(id, _) => {
                 if let Some(p) = self.inbound_q2.iter().position(|x| x == id) {
                     self.inbound_q2.remove(p);
-                    self.replies.push_back(Pk::PubComp(*id, 0));
+                    if self.manual {
+                        // "sends none of these on its own when manual acknowledgement is
+                        // enabled": whether that includes the PUBCOMP is not settled by the
+                        // statement (rumqttc completes the flow itself); either is accepted
+                        self.optional_replies.push(Pk::PubComp(*id, 0));
+                    } else {
+                        self.replies.push_back(Pk::PubComp(*id, 0));
+                    }
                 } else {
-                    self.expect_unsolicited = true;
+                    // a release of an id the client does not know: the statement speaks of
+                    // acknowledgements and of releases of known ids only. Reporting it as
+                    // unsolicited (rumqttc) and completing it with PUBCOMP (what MQTT
+                    // describes) are both accepted.
+                    self.maybe_unsolicited = true;
+                    self.optional_replies.push(Pk::PubComp(*id, 0));
                 }
             }
             _ => {}
@@ -534,19 +569,15 @@ impl Monitor {
             Pk::PubAck(..) | Pk::PubRec(..) | Pk::PubComp(..) => {
                 // replies to inbound flows
                 if self.is("C10") {
-                    match self.replies.front() {
-                        Some(e) if e == pk => {
-                            self.replies.pop_front();
-                        }
-                        _ if self.optional_replies.contains(pk) => {
-                            let p = self.optional_replies.iter().position(|e| e == pk).unwrap();
-                            self.optional_replies.remove(p);
-                        }
-                        other => {
-                            // (manual acknowledgements: owed only once the user has asked)
-                            let d = format!("client wrote {pk:?}; the reply owed next is {other:?}");
-                            self.v("unexpected_reply_on_wire", d);
-                        }
+                    // (the statement does not order the replies among themselves)
+                    if let Some(p) = self.replies.iter().position(|e| e == pk) {
+                        self.replies.remove(p);
+                    } else if let Some(p) = self.optional_replies.iter().position(|e| e == pk) {
+                        self.optional_replies.remove(p);
+                    } else {
+                        // (manual acknowledgements: owed only once the user has asked)
+                        let d = format!("client wrote {pk:?}; the replies owed are {:?}", self.replies);
+                        self.v("unexpected_reply_on_wire", d);
                     }
                 }
             }
@@ -597,9 +628,9 @@ impl Monitor {
 
     fn on_ping(&mut self, now: u64) {
         if self.is("C18") {
-            if self.keep_alive_ms == 0 {
+            if self.pings_forbidden {
                 self.v("ping_with_zero_keepalive", format!("PINGREQ written at t={now}ms although keep-alive is 0"));
-            } else {
+            } else if self.keep_alive_ms > 0 {
                 let since = self.last_ping_ms.unwrap_or(self.conn_started_ms);
                 if now - since > self.keep_alive_ms {
                     let d = format!("{}ms between PINGREQs (previous at {since}ms, this at {now}ms), keep-alive {}ms", now - since, self.keep_alive_ms);
@@ -696,10 +727,11 @@ impl Monitor {
         }
         // ... and nothing the client did solicit (an open flow of the resumed session
         // included) may be reported as unsolicited
-        if self.is("C10") && !self.wrong_kind_ack && !self.expect_unsolicited && (e.contains("Unsolicited") || e.contains("unsolicited")) {
+        if self.is("C10") && !self.wrong_kind_ack && !self.expect_unsolicited && !self.maybe_unsolicited && (e.contains("Unsolicited") || e.contains("unsolicited")) {
             self.v("solicited_reported_unsolicited", format!("{e:?} although the broker sent nothing the client had not asked for"));
         }
         self.expect_unsolicited = false;
+        self.maybe_unsolicited = false;
         self.wrong_kind_ack = false;
         if self.is("C18") {
             self.check_keepalive_error(e, now);
@@ -716,7 +748,7 @@ impl Monitor {
         if ka_err && self.stalled_since.is_none() {
             // no false alarm: the broker must have left a PINGREQ unanswered for a whole interval
             match self.ping_outstanding_since {
-                Some(t) if now - t >= self.keep_alive_ms => {}
+                Some(t) if now - t >= self.keep_alive_lo_ms => {}
                 other => {
                     let d = format!("keep-alive failure reported at {now}ms although the oldest unanswered PINGREQ dates from {other:?}");
                     self.v("keepalive_false_alarm", d);
@@ -851,17 +883,23 @@ impl Monitor {
                 self.v("collision_unresolvable", d);
             }
         }
+        // "Unacknowledged" can be read two ways for a QoS 2 publish past its PUBREC (rumqttc
+        // keeps the slot until the PUBCOMP). Taking too much is judged by the narrow reading
+        // (no PUBACK / PUBREC yet), not resuming by the wide one, so that a client following
+        // either reading passes.
+        let unacked = self.broker_pubs.iter().filter(|b| !b.acked).count();
+        // What was carried over a failure is replayed whatever the new connection negotiated
+        // (the statement bounds it by the configured limit)
+        let replayed = self
+            .broker_pubs
+            .iter()
+            .filter(|b| !b.acked && self.ledger.iter().any(|l| l.tag == b.tag && l.issued_epoch < self.fail_epoch))
+            .count();
+        if unacked > self.limit as usize || (unacked > limit && unacked > replayed) {
+            self.v("window_exceeded", format!("{unacked} publishes unacknowledged ({replayed} of them replayed after a failure), limit {limit}, configured {}", self.limit));
+        }
         if open >= limit || held.collision.is_some() {
-            // must not have taken more. What was carried over a failure is replayed whatever
-            // the new connection negotiated (the statement bounds it by the configured limit)
-            let replayed = self
-                .broker_pubs
-                .iter()
-                .filter(|b| !b.done && self.ledger.iter().any(|l| l.tag == b.tag && l.issued_epoch < self.fail_epoch))
-                .count();
-            if open > self.limit as usize || (open > limit && open > replayed) {
-                self.v("window_exceeded", format!("{open} publishes not finally acknowledged ({replayed} of them replayed after a failure), limit {limit}, configured {}", self.limit));
-            }
+            // nothing more is owed
         } else if queued > 0 {
             let d = format!(
                 "{queued} user request(s) wait in the channel although only {open} of {limit} window slots are in use and no collision is pending (event loop counts inflight={})",
@@ -983,7 +1021,7 @@ impl Monitor {
             self.connect_seen_unanswered,
             (&self.outs, &self.wire_kinds, &self.inbound_q2, &self.inbound_unacked, &self.stale_outs, &self.carried_q2),
             (self.last_ping_ms, self.ping_outstanding_since, self.conn_started_ms, self.healthy, self.effective_limit, self.expect_unsolicited, self.wrong_kind_ack, self.partial_outstanding),
-            (&self.completed_rels, self.reuse_during_release, self.session_lost_with_unacked),
+            (&self.completed_rels, self.reuse_during_release, self.session_lost_with_unacked, self.maybe_unsolicited),
         ))
     }
 
